@@ -28,6 +28,8 @@ var bitlistFuncs = []string{"utils.NewBitList", "utils.(*BitList).Len", "utils.(
 var gfFuncs = []string{"utils.(*GaloisField).AddOrSub", "utils.(*GaloisField).Multiply", "utils.(*GaloisField).Divide", "utils.(*GaloisField).Invers",
 	"utils.lemmaMulComm", "utils.lemmaMulAssoc", "utils.lemmaInverse", "utils.lemmaDivUndoesMul", "utils.lemmaDivIsMulInverse", "utils.NewGFPoly"}
 
+var getters2D = []string{"qr.(*qrcode).Content", "qr.(*qrcode).Metadata", "qr.(*qrcode).ColorModel", "qr.(*qrcode).ColorScheme", "qr.(*qrcode).Bounds", "qr.(*qrcode).At", "datamatrix.(*datamatrixCode).Content", "datamatrix.(*datamatrixCode).Metadata", "datamatrix.(*datamatrixCode).ColorModel", "datamatrix.(*datamatrixCode).ColorScheme", "datamatrix.(*datamatrixCode).Bounds", "datamatrix.(*datamatrixCode).At", "aztec.(*aztecCode).Metadata", "aztec.(*aztecCode).ColorModel", "aztec.(*aztecCode).ColorScheme", "aztec.(*aztecCode).Bounds", "aztec.(*aztecCode).At", "pdf417.(*pdfBarcode).Content", "pdf417.(*pdfBarcode).Metadata", "pdf417.(*pdfBarcode).ColorModel", "pdf417.(*pdfBarcode).ColorScheme", "pdf417.(*pdfBarcode).Bounds", "pdf417.(*pdfBarcode).At"}
+
 var props = []*PropDef{
 	{
 		ID:     "C01",
@@ -164,7 +166,7 @@ var props = []*PropDef{
 	},
 	{
 		ID:     "C11",
-		Funcs:  append([]string{"twooffive.EncodeWithColor", "twooffive.Encode", "codabar.EncodeWithColor", "codabar.Encode", "code39.EncodeWithColor", "code39.Encode"}, base1D...),
+		Funcs:  append(append([]string{"twooffive.EncodeWithColor", "twooffive.Encode", "codabar.EncodeWithColor", "codabar.Encode", "code39.EncodeWithColor", "code39.Encode"}, base1D...), getters2D...),
 		Unwind: []*Unwinder{unwEAN, unwAztec, unwDM, unwPDF, unwQR},
 		// of the aztec family only the obligations about the result object's accessors belong here
 		// (the empty-payload defect F6 shows up in the mode message: C03/C10)
@@ -172,8 +174,8 @@ var props = []*PropDef{
 		Harness: []Harness{
 			{Pkg: "codabar", File: "c11_render_test.go", Run: "^TestVerifC11$", Bound: boundedNote + "every Encode/EncodeWithColor entry point x 5 colour schemes: bounds, pixel colours by value, ColorModel/ColorScheme, pattern independent of the scheme, Metadata, Content"},
 		},
-		Assumptions: []string{asmBitlist, "the 2-D image types' getters (Bounds/At/ColorModel/...) are not under contract yet; the unwinding families establish the fields (size, colour scheme, bit model) they read"},
-		Note:        "[P] the 1-D image types: constructors store exactly kind/content/bars/scheme (black on white for the plain constructors), getters return them, At(x,y) is Foreground iff bit x. [C] the unwinding families show that the result objects of EAN, PDF417, Aztec, DataMatrix and QR carry the caller's colour scheme, the prescribed size and the scheme-independent module pattern.",
+		Assumptions: []string{asmBitlist, "the 2-D getters are verified against the fields (size, colour scheme, bit model, content) that the unwinding families establish on the result objects; aztec Content() (a []byte to string conversion of the stored copy) is covered by the content-snapshot obligation and the bounded stand-in"},
+		Note:        "[P] the 1-D image types: constructors store exactly kind/content/bars/scheme (black on white for the plain constructors), getters return them, At(x,y) is Foreground iff bit x. [P] the getters of the four 2-D image types (Bounds from the stored size, At(x,y) = Foreground iff the module bit, ColorModel/ColorScheme/Metadata/Content from the stored fields; PDF417 rows moduleHeight pixels high). [C] the unwinding families show that the result objects of EAN, PDF417, Aztec, DataMatrix and QR carry the caller's colour scheme, the prescribed size and the scheme-independent module pattern.",
 	},
 	{
 		ID:     "C12",
